@@ -11,7 +11,7 @@ pub fn meta() -> Meta {
     Meta {
         id: "C18",
         level: "exploration",
-        rule: "planted-indel families through `ska build` + `ska lo` (CLI, one thread, hash seeds owned by the shim): base sequences whose (k-1)-mers are unique on both strands; k in {11,15,21,31}; 1..3 indels exactly 4k apart; lengths 1..10 complete for a single indel and {1,2,k/2,10} for several; the segment is present in the carriers and absent in the others, so every carrier set (every non-trivial subset for n=3,4,5; single/half/all-but-one for n=6,8) covers both polarities (insertion vs deletion relative to the majority); orientations all-forward / alternating. Oracle for EVERY record of every run: before+REF+after (or its reverse complement) is a substring of exactly the samples genotyped 0 and before+ALT+after of exactly those genotyped 1 ('-' = empty allele; 0/1 counts for both), nobody is genotyped for an allele they lack. For the planted families additionally: every record corresponds to one planted indel with its carriers, no indel is reported twice, and the recall is >= 90% over the whole enumerated family and over every sub-family (k x {single indel, several indels, indel that copies its adjacent bases = homopolymer extension / tandem copy}); counts and misses are reported. Cases whose derived samples break (k-1)-mer uniqueness are judged for soundness only.".into(),
+        rule: "planted-indel families through `ska build` + `ska lo` (CLI, one thread, hash seeds owned by the shim): base sequences whose (k-1)-mers are unique on both strands; k in {11,15,21,31}; 1..3 indels exactly 4k apart; lengths 1..10 complete for a single indel and {1,2,k/2,10} for several; the segment is present in the carriers and absent in the others, so every carrier set (every non-trivial subset for n=3,4,5; single/half/all-but-one for n=6,8) covers both polarities (insertion vs deletion relative to the majority); orientations all-forward / alternating. Oracle for EVERY record of every run: before+REF+after (or its reverse complement) is a substring of exactly the samples genotyped 0 and before+ALT+after of exactly those genotyped 1 ('-' = empty allele; 0/1 counts for both), nobody is genotyped for an allele they lack. For the planted families additionally: every record corresponds to one planted indel with its carriers, no indel is reported twice, and the recall is >= 90% over the whole enumerated family and over every sub-family (k x {single indel, several indels, indel that can be slid by exactly 1-2 positions, by exactly 3-5 positions = homopolymer run / tandem copies, found in the base sequence for (length, slide) in a fixed list}); counts and misses are reported. Cases whose derived samples break (k-1)-mer uniqueness are judged for soundness only.".into(),
         assumptions: vec!["release-profile arithmetic: a debug build panics on a usize underflow in read_graph.rs for short deletion paths (DESIGN §2)".into(), "hash seeds: declared finite set".into()],
         exhaustive_when_uncapped: true,
     }
@@ -183,15 +183,22 @@ pub fn run(ctx: &Ctx, rep: &mut Report) {
         }
         // indels whose sequence copies the adjacent bases (homopolymer extension, tandem copy): the bubble can be
         // shifted; they are genuine isolated indels shorter than k in repeat-free sequence
-        let find_shiftable = |len: usize| -> Option<usize> {
-            (2 * k..base.len() - 2 * k).find(|p| (0..len).all(|j| base[p + j] == base[p + j - len]))
+        // removing [p, p+len) can be slid left by s positions iff base[p-i] == base[p+len-i] for i = 1..=s
+        let find_shiftable = |len: usize, s: usize| -> Option<usize> {
+            (2 * k..base.len() - 2 * k).find(|p| (1..=s).all(|i| base[p - i] == base[p + len - i]) && base[p - s - 1] != base[p + len - s - 1] && base[*p] != base[p + len])
         };
         let mut shiftable: Vec<Vec<(usize, usize)>> = Vec::new();
-        for len in [1usize, 2] {
-            if let Some(p) = find_shiftable(len) {
-                shiftable.push(vec![(p, len)]);
+        let mut far_shiftable: Vec<Vec<(usize, usize)>> = Vec::new();
+        for (len, s) in [(1usize, 1usize), (2, 2), (2, 1), (3, 2), (1, 2), (1, 3), (2, 3), (2, 4), (3, 3), (4, 3), (6, 3), (3, 4), (5, 4), (1, 4), (3, 5)] {
+            if let Some(p) = find_shiftable(len, s) {
+                if s >= 3 {
+                    far_shiftable.push(vec![(p, len)]);
+                } else {
+                    shiftable.push(vec![(p, len)]);
+                }
             }
         }
+        plans.extend(far_shiftable.iter().cloned());
         plans.extend(shiftable.iter().cloned());
         plans.push(vec![(starts[0], 1), (starts[1], k / 2), (starts[2], 10)]);
         plans.push(vec![(starts[0], 10), (starts[1], 2), (starts[2], 2)]);
@@ -219,7 +226,7 @@ pub fn run(ctx: &Ctx, rep: &mut Report) {
                                         rep.nontrivial += 1;
                                         planted_total += planted as u64;
                                         found_total += found as u64;
-                                        let class = if shiftable.contains(&c.segs) { "shiftable (copies adjacent bases)" } else if c.segs.len() > 1 { "several indels" } else { "single indel" };
+                                        let class = if shiftable.contains(&c.segs) { "shiftable by 1-2 (copies adjacent bases)" } else if far_shiftable.contains(&c.segs) { "shiftable by 3-5" } else if c.segs.len() > 1 { "several indels" } else { "single indel" };
                                         let kp = format!("planted[k={k} {class}]");
                                         let kf = format!("reported[k={k} {class}]");
                                         let a = rep.extra.get(&kp).and_then(|v| v.as_u64()).unwrap_or(0);
@@ -252,6 +259,8 @@ pub fn run(ctx: &Ctx, rep: &mut Report) {
                 }
             }
         }
+        rep.extra.insert(format!("max_shiftable_plans[k={k}]"), json!(shiftable.len() + far_shiftable.len()));
+        rep.extra.insert(format!("max_far_shiftable_plans[k={k}]"), json!(far_shiftable.len()));
         rep.completed.push(format!("planted indels k={k}"));
     }
     rep.sample(json!({"k": 15, "segs": [[60, 3]], "present": [[true, false, true, false]], "flip": [false, false, false, false], "oracle": "before+REF+after in exactly the samples genotyped 0, before+ALT+after in exactly those genotyped 1"}));
